@@ -675,7 +675,7 @@ def run_child(js, run, d, inject=None, names=None, trace_path=None):
     os.close(pr_w)
     own_trace = trace_path is None
     if own_trace:
-        fd, trace_path = tempfile.mkstemp(prefix="c14tr_", dir="/tmp")
+        fd, trace_path = tempfile.mkstemp(prefix="c14tr_", dir=os.path.dirname(os.path.abspath(d)))
         os.close(fd)
     cmd = ["strace", "-f", "-s", "0", "-p", str(pid), "-o", trace_path, "-e", "trace=" + SYSCALLS]
     if inject is not None:
